@@ -22,6 +22,7 @@ type c13Case struct {
 	Main    string            `json:"main"`
 	Second  map[string]string `json:"second_set,omitempty"` // two-deployments part: the set loaded afterwards
 	Polls   int               `json:"polls,omitempty"`
+	Capture bool              `json:"compare_stdout,omitempty"`
 }
 
 func c13Point() PointSpec {
@@ -167,7 +168,7 @@ func c13ExecP(w *run.Worker, part string, p *Prog) {
 		w.Note("unspecified_cells_skipped", 1)
 		return
 	}
-	mk := func() c13Case { return c13Case{Scripts: p.Sources(), Main: "a.p", Polls: p.Polls} }
+	mk := func() c13Case { return c13Case{Scripts: p.Sources(), Main: "a.p", Polls: p.Polls, Capture: p.Capture} }
 	if !v.OK {
 		w.Violate("C13:"+part+":"+v.Key, v.What+"\n"+fmtScripts(p.Sources()), mk())
 		return
@@ -561,7 +562,7 @@ func c13Replay(raw json.RawMessage) (bool, string) {
 		a, b := fmt.Sprint(alone.Trace, alone.Point, alone.Err), fmt.Sprint(after.Trace, after.Point, after.Err)
 		return a != b, "alone: " + a + "\nafter the second load: " + b
 	}
-	p := &Prog{Scripts: map[string][]*rt.Node{}, Main: c.Main, Point: c13Point(), Polls: c.Polls, SrcOverride: map[string]string{}}
+	p := &Prog{Scripts: map[string][]*rt.Node{}, Main: c.Main, Point: c13Point(), Polls: c.Polls, Capture: c.Capture, SrcOverride: map[string]string{}}
 	for name, src := range c.Scripts {
 		tree, err := parseToTree(name, src)
 		if err != nil {
